@@ -325,6 +325,21 @@ func casesC05(g *Gen) []*Case {
 			add(c)
 		}
 	}
+	// an escaped "{{" directly followed by a third brace: the backslash goes, one brace is text and the next two open a block
+	for src, want := range map[string]string{
+		"\\{{{ n }}}":              "{7}",
+		"a\\{{{ 1 + 2 }}}b":        "a{3}b",
+		"<b>\\{{{ n }}}</b>\n":     "<b>{7}</b>\n",
+		"\\{{{ n }}}\\{{{ n }}}":    "{7}{7}",
+		"x \\{{{ \"s\" }}} y":       "x {s} y",
+		"\\{{ n }} \\{{{ n }}}":     "{{ n }} {7}",
+		"@if(true)\\{{{ n }}}@end": "{7}",
+		"{{ n }}\\{{{ n }}}{{ n }}": "7{7}7",
+	} {
+		c := evalCase("escaped_braces_before_a_block", src, gvMap("n", gvInt(7)))
+		c.Oracle = expectOut(want)
+		add(c)
+	}
 	// prose that follows @else / @end / a loop's @else directly is text, whatever English it begins with
 	for _, t := range []string{" if you have not paid yet, please do.", " if (n) is not one", " if", "  if (x)", "\nif (x) y", " IF x", "If (x)", " elseif", " else", ": if (a) b",
 		" (see below)", "(optional)", " in time", " end", "s", " for you", " each one", "If", "IF", "i", "I f"} {
